@@ -11,16 +11,28 @@
    * a recorded call is serialized exactly once, contiguously, inside the packet, ending at
      start + size: C02_record_in_bounds_partial (under size_stable); what a CTF reader then finds
      is C01_record_roundtrip (per record).
-   NOT proved (stated): the whole-history statement "the records found in the emitted packets are
-   exactly the accepted calls in call order" (needs the frame argument over all later writes of a
-   packet and the packet-level reader); it is checked on the real packets by the decode oracle of
-   the check on every run.  The capacity test uses the size at the current position, not at the
-   empty-packet position: known finding S9 (a record can be discarded although it fits an empty
-   packet). *)
+   * C03_history (whole histories, Tracer/History*.v): for EVERY well-formed data stream type,
+     oracle (platform behaviour: back end full answers, tracing toggled inside callbacks, buffers
+     swapped) and history of calls that starts by opening the first packet and ends with no packet
+     open, the event records that the packet-level CTF reader (Tracer/Decode.v: TSDL-level
+     information only) finds in the packets handed to the back end are, in call order, exactly one
+     record per tracing call made while tracing was enabled and not discarded - `outs`: every
+     enabled call either appends its own record (with the timestamp sampled at its entry) after all
+     earlier ones and logs no discard, or appends nothing and logs exactly one discard; a call made
+     while tracing is disabled and every other call appends nothing and logs no discard.  No
+     duplicate, no record split across packets, none outside a packet's content: the reader's record
+     loop must end exactly at the content size of every packet.
+     Premises kept visible: no error flagged by the model (a store outside the buffer: known
+     findings S9 / S18), the position is inside the packet whenever the platform closes it
+     (`inb_run`, C02's conclusion - false only in the S9 / S18 histories), every event record
+     occupies at least one bit (S13), buffer sizes fit the content size field.
+   The capacity test uses the size at the current position, not at the empty-packet position:
+   known finding S9 (a record can be discarded although it fits an empty packet). *)
 From Coq Require Import List Arith Bool ZArith String.
 Import ListNotations.
 From BT.Layout Require Import Model.
-From BT.Tracer Require Import Model Lemmas Spec OutcomeProofs BoundsWitness.
+From BT.Tracer Require Import Model Lemmas Spec OutcomeProofs BoundsWitness Decode History HistoryRecord
+  HistoryStep HistoryMain.
 
 Theorem C03_at_most_one_discard :
   forall d e args w, exists k, nd w (trace_fn d e args w) k /\ k <= 1.
@@ -46,3 +58,37 @@ Example C03_example :
                [COpen; CTrace 0 [VArr [VInt 1]]; CTrace 0 [VArr [VInt 2]]] in
   w_err w = false /\ c_disc (w_c w) = 1 /\ ndisc (w_log w) = 1.
 Proof. vm_compute. repeat split. Qed.
+
+(* whole histories *)
+Theorem C03_history :
+  forall d user cs_size, wf_d d user cs_size ->
+  forall buf oracle h,
+    fits cs_size (8 * buf) -> or_ok cs_size oracle -> Forall (call_ok d) h ->
+    let w0 := mk_w (init_ctx buf) oracle 0%Z [] false user in
+    let w1 := step d w0 COpen in
+    c_open (w_c w1) = true -> inb_run d w1 h ->
+    let w := run d buf user oracle (COpen :: h) in
+    w_err w = false -> c_open (w_c w) = false ->
+    exists ds, outs d w1 h ds /\ read_all d (pkts (obs (w_log w))) = Some (List.concat ds).
+Proof. exact history_records. Qed.
+Print Assumptions C03_history.
+
+(* one call: the records a reader finds afterwards are those found before plus this call's outcome *)
+Theorem C03_step :
+  forall d user cs_size, wf_d d user cs_size ->
+  forall R w k, J d user cs_size R w -> call_ok d k -> inb w -> w_err (step d w k) = false ->
+    exists dl, call_out d w k dl /\ J d user cs_size (R ++ dl) (step d w k).
+Proof. exact step_J. Qed.
+Print Assumptions C03_step.
+
+From BT.Tracer Require Import HistoryExample Examples.
+(* non-vacuity: the premises hold for a data stream type with every packet feature and a clock and a
+   history with two packet switches, a call while disabled, a platform close and the finalisation *)
+Example C03_history_example :
+  wf_d ex_d [] 16 /\ fits 16 (8 * 16) /\ or_ok 16 ex_or /\ Forall (call_ok ex_d) ex_tail /\
+  c_open (w_c (step ex_d (mk_w (init_ctx 16) ex_or 0%Z [] false []) COpen)) = true /\
+  inb_run ex_d (step ex_d (mk_w (init_ctx 16) ex_or 0%Z [] false []) COpen) ex_tail /\
+  w_err (run ex_d 16 [] ex_or (COpen :: ex_tail)) = false /\
+  c_open (w_c (run ex_d 16 [] ex_or (COpen :: ex_tail))) = false /\
+  List.length (pkts (obs (w_log (run ex_d 16 [] ex_or (COpen :: ex_tail))))) = 3.
+Proof. exact history_premises. Qed.
